@@ -6,10 +6,11 @@ import re
 import typing as t
 
 import sansldap as L
-from sansldap._messages import PackingOptions, unpack_ldap_message
 from sansldap.asn1 import ASN1Reader
 
 from vf import abs as A
+
+PackingOptions, unpack_ldap_message = A.lib("PackingOptions"), A.lib("unpack_ldap_message")
 
 OPTS = PackingOptions()
 UNBIND_PDU = bytes.fromhex("30050201004200")  # an independent, hand-assembled second PDU
